@@ -16,7 +16,9 @@ TECHNIQUE = "relational oracle over paired executions of the same case under six
 RULE = ("cases = pool strategy (every classification entry incl. subtract_current / X_eval / feature-row variants; regression entries with NaN "
         "vs a reserved number) | stream strategy (through its classifier) | classifier (fit / predict_proba / predict / predict_freq; "
         "multi-annotator classifiers with explicit classes) x data x label regime; every case is executed under the reference encoding "
-        "(NaN, float 0/1/2) and under (-1, int 10/20/30), (None, object numbers), (None, object strings), ('', str), ('zz', str): selected "
+        "(NaN, float 0/1/2) and under (-1, int 10/20/30), (None, object numbers), (None, object strings), ('', str), ('zz', str), ('nan', "
+        "natural str dtype, class names of different lengths); also SingleAnnotatorWrapper(strategy) and IntervalEstimationThreshold on "
+        "label matrices; classifiers through fit and partial_fit, with given and with inferred classes: selected "
         "indices must be identical, utilities / probabilities allclose (rtol 1e-9), predictions the re-encoded originals. Non-trivial = "
         ">= 2 classes observed and >= 1 missing label; distinct by (family, object, encoding, data, labels, n, seed).")
 ASSUMPTIONS = ["class renamings are strictly increasing (the sorted class order is preserved)",
@@ -28,6 +30,9 @@ ENCODINGS = {
     "objstr": (None, object, ["a", "b", "c"]),
     "strempty": ("", "<U2", ["a", "b", "c"]),
     "strzz": ("zz", "<U2", ["a", "b", "c"]),
+    # class names of different lengths; the array has the dtype numpy gives the listed values (an unobserved class may be
+    # longer than every string in y)
+    "strlong": ("nan", None, ["a", "b", "new york"]),
 }
 REG_SENTINELS = {"num": -999.0}
 
@@ -39,6 +44,8 @@ def encode(y_id, enc):
         # no missing entry: the array gets its natural (possibly narrower) dtype, as a user would build it from labels only
         out = np.array([classes[i] for i in y_id.reshape(-1)]).reshape(y_id.shape)
         return out, ml, classes
+    if dt is None:
+        return np.array([ml if i < 0 else classes[i] for i in y_id.reshape(-1)]).reshape(y_id.shape), ml, classes
     out = np.empty(y_id.shape, dtype=dt)
     flat, src = out.reshape(-1), y_id.reshape(-1)
     for i in range(flat.size):
@@ -70,7 +77,18 @@ def gen_cases(tier, seed):
         for i in range(reps):
             cases.append({"family": "clf", "name": name, "seed": stable_hash(seed, "C09", "c", name, i),
                           "enc": encs[(i + stable_hash(seed, name)) % len(encs)],
-                          "explicit_member_classes": bool(i % 2)})
+                          "explicit_member_classes": bool(i % 2),
+                          "path": ["fit", "partial_fit"][(i // 2 + stable_hash(seed, name, "p")) % 2],
+                          "classes_none": bool((i // 4 + stable_hash(seed, name, "n")) % 2)})
+    # multi-annotator strategies: the wrapper around classification strategies, and IntervalEstimationThreshold
+    inner = [n for n, e in POOL.items() if e.kind in ("clf", "both") and not e.is_wrapper and e.arbitrary_index_ok]
+    for name in inner:
+        for i in range(max(2, reps // (3 * POOL[name].slow))):
+            cases.append({"family": "multi", "name": "saw", "entry": name, "seed": stable_hash(seed, "C09", "m", name, i),
+                          "enc": encs[(i + stable_hash(seed, name, "m")) % len(encs)], "nmax": 9 if tier == "quick" else 14})
+    for i in range(reps * 2):
+        cases.append({"family": "multi", "name": "iet", "entry": "IntervalEstimationThreshold", "seed": stable_hash(seed, "C09", "iet", i),
+                      "enc": encs[(i + stable_hash(seed, "iet")) % len(encs)], "nmax": 9 if tier == "quick" else 14})
     for k, c in enumerate(cases):
         c["id"] = "%s-%s-%s-%04d" % (c["family"], c.get("entry") or c.get("name"), c["enc"], k)
     return cases
@@ -78,7 +96,7 @@ def gen_cases(tier, seed):
 
 def required_cells(tier):
     return ["pool|%s" % n for n in POOL] + ["stream|%s" % n for n in streams.STRAT_NAMES] + ["clf|%s" % n for n in models.CLASSIFIERS] + \
-        ["enc=%s" % e for e in ENCODINGS]
+        ["enc=%s" % e for e in ENCODINGS] + ["multi|saw", "multi|iet"]
 
 
 def _same_out(a, b):
@@ -201,22 +219,28 @@ def run_clf(desc):
     comp = None
     viol = []
 
+    path = desc.get("path", "fit")
+    classes_none = bool(desc.get("classes_none")) and not multi and name not in ("sliding",)
+    if classes_none:
+        cm = None
+
     def run(y, ml_, classes_):
         nonlocal comp
-        clf = factory(list(classes_), ml_, cm, 5)
+        clf = factory(None if classes_none else list(classes_), ml_, cm, 5)
         comp = type(clf).__name__ + ("(%s)" % type(clf.estimator).__name__ if hasattr(clf, "estimator") else "")
         if multi and desc.get("explicit_member_classes") and hasattr(clf, "estimators"):
             for _, est in clf.estimators:
                 est.set_params(classes=list(classes_))
         steps.begin()
         try:
+            fit = clf.partial_fit if (path == "partial_fit" and hasattr(clf, "partial_fit")) else clf.fit
             if sw is not None:
                 try:
-                    clf.fit(X, y, sample_weight=sw)
+                    fit(X, y, sample_weight=sw)
                 except TypeError:
-                    clf.fit(X, y)
+                    fit(X, y)
             else:
-                clf.fit(X, y)
+                fit(X, y)
             out = {"proba": np.asarray(clf.predict_proba(Q), float), "predict": np.asarray(clf.predict(Q)).tolist(),
                    "classes_": np.asarray(clf.classes_).tolist()}
             if hasattr(clf, "predict_freq"):
@@ -236,7 +260,8 @@ def run_clf(desc):
         except Exception as ex:
             errs[nm] = "%s: %s" % (type(ex).__name__, str(ex)[:160])
     contracts.count("C09.encoding-pair-oracle")
-    ctx = "clf=%s enc=%s n=%d cost=%s weights=%s member_classes=%s" % (name, desc["enc"], n, cm is not None, sw is not None, desc.get("explicit_member_classes"))
+    ctx = "clf=%s enc=%s n=%d cost=%s weights=%s member_classes=%s path=%s classes=%s" % (
+        name, desc["enc"], n, cm is not None, sw is not None, desc.get("explicit_member_classes"), path, "None" if classes_none else "given")
     if len(errs) == 1:
         nm = next(iter(errs))
         viol.append({"component": comp, "kind": "raises-under-one-encoding-only:%s" % ("reference" if nm == "nan" else "non-default"),
@@ -251,7 +276,8 @@ def run_clf(desc):
         want = [classes[int(v)] for v in a["predict"]]
         if want != b["predict"]:
             viol.append({"component": comp, "kind": "predict-is-not-the-re-encoded-original", "detail": "%s vs re-encoded %s [%s]" % (b["predict"][:8], want[:8], ctx)})
-        if b["classes_"] != list(classes):
+        obs = sorted(set(y_id[y_id >= 0].ravel().tolist()))
+        if b["classes_"] != ([classes[i] for i in obs] if classes_none else list(classes)):
             viol.append({"component": comp, "kind": "classes_-not-re-encoded", "detail": "%r" % (b["classes_"],)})
     for v in viol:
         v["trigger"] = triggers.classify("C09", v, desc)
@@ -332,4 +358,93 @@ def run_stream(desc):
 
 def run_case(desc):
     steps.install()
-    return {"pool": run_pool, "clf": run_clf, "stream": run_stream}[desc["family"]](desc)
+    return {"pool": run_pool, "clf": run_clf, "stream": run_stream, "multi": run_multi}[desc["family"]](desc)
+
+
+def run_multi(desc):
+    """SingleAnnotatorWrapper(inner strategy) / IntervalEstimationThreshold on a label matrix under two encodings."""
+    import inspect
+    from skactiveml.pool.multiannotator import IntervalEstimationThreshold, SingleAnnotatorWrapper
+    from skactiveml.classifier.multiannotator import AnnotatorEnsembleClassifier, AnnotatorLogisticRegression
+    pb.setup()
+    rng = gen.rng_for("c09m", desc["seed"])
+    is_iet = desc["name"] == "iet"
+    e = None if is_iet else POOL[desc["entry"]]
+    n, d, A = int(rng.randint(4, desc["nmax"] + 1)), int(rng.randint(1, 3)), int(rng.randint(2, 4))
+    X = gen.make_X(rng, n, d, ["normal", "dups", "grid", "far"][rng.randint(4)])
+    ncls = 2 if (e is not None and e.binary) else 3
+    y_true = rng.randint(0, ncls, size=n)
+    Y_id = np.full((n, A), -1)
+    lab = rng.rand(n) < 0.6
+    if lab.all():
+        lab[0] = False
+    for i in np.flatnonzero(lab):
+        who = np.ones(A, bool) if is_iet else rng.rand(A) < 0.6
+        if not who.any():
+            who[rng.randint(A)] = True
+        Y_id[i, who] = np.where(rng.rand(int(who.sum())) < 0.75, y_true[i], rng.randint(0, ncls, size=int(who.sum())))
+    unl = np.flatnonzero((Y_id < 0).all(axis=1))
+    cands = None if rng.rand() < 0.5 else np.sort(rng.choice(unl, size=int(rng.randint(1, len(unl) + 1)), replace=False))
+    bs = int(rng.randint(1, 5))
+    nps = int(rng.randint(1, 3))
+    seed = int(desc["seed"] % 100000)
+    # as in the pool family the wrapped strategy names the component (known findings are keyed by it); the wrapper is
+    # named in the detail text
+    comp = "IntervalEstimationThreshold" if is_iet else e.cls.__name__
+    use_lr = bool(seed % 2)
+
+    def call(Y, ml, classes):
+        classes = list(classes)
+        kw = dict(X=X.copy(), y=Y, batch_size=bs, return_utilities=True)
+        if cands is not None:
+            kw["candidates"] = cands.copy()
+        if is_iet:
+            clf = AnnotatorLogisticRegression(classes=classes, missing_label=ml, random_state=0, max_iter=15) if use_lr else \
+                AnnotatorEnsembleClassifier(estimators=[("p%d" % a, ParzenWindowClassifier(classes=classes, missing_label=ml, random_state=0))
+                                                        for a in range(A)], voting="soft", classes=classes, missing_label=ml, random_state=0)
+            qs = IntervalEstimationThreshold(missing_label=ml, random_state=seed)
+            kw["clf"] = clf
+        else:
+            mk_params = inspect.signature(e.make).parameters
+            inner = e.make(seed, ml, classes=tuple(classes)) if "classes" in mk_params else e.make(seed, ml)
+            qs = SingleAnnotatorWrapper(inner, missing_label=ml, random_state=seed)
+            kw.update(e.kwargs({"classes": classes, "ml": ml, "kind": "clf"}))
+            kw["n_annotators_per_sample"] = nps
+        steps.begin()
+        try:
+            return qs.query(**kw)
+        finally:
+            steps.end()
+
+    Y_ref = np.where(Y_id < 0, np.nan, Y_id.astype(float))
+    Y_alt, ml, classes = encode(Y_id, desc["enc"])
+    viol, outs, errs = [], {}, {}
+    for nm, args in (("nan", (Y_ref, np.nan, list(range(ncls)))), (desc["enc"], (Y_alt, ml, classes[:ncls]))):
+        try:
+            outs[nm] = call(*args)
+        except steps.StepBudgetExceeded as ex:
+            viol.append({"component": comp, "kind": "step-budget-exceeded", "detail": str(ex)})
+        except Exception as ex:
+            errs[nm] = "%s: %s" % (type(ex).__name__, str(ex)[:160])
+    contracts.count("C09.encoding-pair-oracle")
+    ctx = "multi=%s inner=%s enc=%s n=%d annotators=%d candidates=%s batch=%d" % (desc["name"], desc["entry"], desc["enc"], n, A,
+                                                                              "None" if cands is None else "indices", bs)
+    if len(errs) == 1:
+        nm = next(iter(errs))
+        viol.append({"component": comp, "kind": "raises-under-one-encoding-only:%s" % ("reference" if nm == "nan" else "non-default"),
+                     "detail": "encoding %s: %s [%s]" % (nm, errs[nm], ctx)})
+    elif len(outs) == 2:
+        why = _same_out(outs["nan"], outs[desc["enc"]])
+        if why:
+            viol.append({"component": comp, "kind": "result-depends-on-encoding", "detail": "NaN/float vs %s: %s [%s]" % (desc["enc"], why, ctx)})
+    contracts.drain()
+
+    class _Case:
+        entry = e
+    for v in viol:
+        v["trigger"] = "any" if is_iet else triggers.classify("C09", v, _Case)
+    n_obs = len(set(Y_id[Y_id >= 0].tolist()))
+    return {"status": "ok" if (outs or errs) else "skip", "violations": viol, "nontrivial": bool(n_obs >= 2),
+            "nt_key": "multi|%s|%s|%s|n%d|%d" % (desc["name"], desc["entry"], desc["enc"], n, desc["seed"] % 9973),
+            "cells": ["multi|%s" % desc["name"], "enc=%s" % desc["enc"]], "monitors": contracts.drain_evals(),
+            "observed": {"strategy": comp, "inner": desc["entry"], "enc": desc["enc"], "n": n, "annotators": A, "errors": errs}}
